@@ -46,6 +46,13 @@ theorem C17_rows_in_input_order_for_any_thread_count (ls : List Nat) (hl : Lines
     (split ls chunks).flatMap (fun c => linesIn 0 0 ls c.1 c.2) = List.range ls.length :=
   chunks_partition_lines ls hl chunks hc
 
+/-- **Thread-count independence of the output rows**: a per-row function `row` (name and statistics of the region on that
+    line) applied chunk by chunk gives the same rows in the same order for any two thread counts. -/
+theorem C17_rows_agree_for_any_two_thread_counts {α : Type} (row : Nat → α) (ls : List Nat) (hl : Lines ls) (c₁ c₂ : Nat)
+    (h₁ : 1 ≤ c₁) (h₂ : 1 ≤ c₂) :
+    ((split ls c₁).flatMap (fun c => linesIn 0 0 ls c.1 c.2)).map row = ((split ls c₂).flatMap (fun c => linesIn 0 0 ls c.1 c.2)).map row := by
+  rw [chunks_partition_lines ls hl c₁ h₁, chunks_partition_lines ls hl c₂ h₂]
+
 end CH
 
 namespace PYB
